@@ -4,8 +4,9 @@ booked: `ParseNetworkAddressWithDefaults` after `SplitNetworkAddress` (listeners
 `internal.SplitUnixSocketPermissionsBits`, `PortRangeSize` / `Expand` / `At` / `JoinHostPort`, the `address`
 and `lnKey` of `NetworkAddress.listen` (listeners.go:150-183), the key of `ListenQUIC` (436) and the key the
 consumers of `ListenerUsage` derive (modules/caddyhttp/app.go: `addr.JoinHostPort(0)` of `na.Expand()`).
-`net.SplitHostPort` is a parameter: the driver receives the (network, host, port) that the real
-`SplitNetworkAddress` returned for the address.
+`SplitNetworkAddress` / `net.SplitHostPort` are the byte-level model of C13 (`C13/Listen.lean`,
+`splitNetworkAddress`): the driver runs it on the address and checks it against what the real
+`SplitNetworkAddress` returned.
 -/
 namespace CaddyModel.C02
 
@@ -73,7 +74,7 @@ def NetAddr.size (na : NetAddr) : Nat := if na.endPort < na.startPort then 0 els
 
 /-- `net.JoinHostPort` -/
 def joinHostPort (host : String) (port : Nat) : String :=
-  if host.contains ':' || host.contains '%' then "[" ++ host ++ "]:" ++ toString port
+  if host.contains ':' then "[" ++ host ++ "]:" ++ toString port
   else host ++ ":" ++ toString port
 
 /-- `na.JoinHostPort(offset)` -/
